@@ -113,7 +113,7 @@ def run_job(spec):
                 break
             cons = eng.constraints()
             # reachability twin: `assert False` at the end of this path must be violated
-            tw, wm = solve._run_z3(cons, 5000)
+            tw, wm = eng.sat_check([], 5000)
             if tw == 'unsat':
                 out['vacuous_paths'] += 1
                 continue
@@ -121,13 +121,13 @@ def run_job(spec):
                 covers |= ctx.covered
                 for cname, cterm in ctx.cover_conds:
                     if cname not in covers:
-                        cr, _ = solve._run_z3(cons + [cterm], 3000)
+                        cr, _ = eng.sat_check([cterm], 3000)
                         if cr == 'sat':
                             covers.add(cname)
                 if len(out['witnesses']) < spec.get('n_witness', 3):
                     # prefer a witness with moderate magnitudes (float replay: no overflow/underflow)
-                    bnd = [z3.And(v >= -50, v <= 50) for v in ctx.inputs.values() if z3.is_real(v)]
-                    tw2, wm2 = solve._run_z3(cons + bnd, 3000)
+                    bnd = list(ctx.hints) or [z3.And(v >= -50, v <= 50) for v in ctx.inputs.values() if z3.is_real(v)]
+                    tw2, wm2 = eng.sat_check(bnd, 3000)
                     out['witnesses'].append(_model_values(wm2 if tw2 == 'sat' else wm, ctx.inputs))
             nontrivial = False
             for gname, gterm, kregion in ctx.goals:
@@ -147,6 +147,11 @@ def run_job(spec):
                         out['xcheck'][xr] += 1
                 elif r == 'sat':
                     out['sat'] += 1
+                    if ctx.hints:
+                        # prefer a counterexample inside the float-friendly box declared by the harness
+                        r2, m2 = solve._run_z3(cons + list(ctx.hints) + [z3.Not(gterm)], 5000)
+                        if r2 == 'sat':
+                            m = m2
                     rec = dict(prop=spec['prop'], harness=spec['harness'], params=spec['params'],
                                goal=gname, values=_model_values(m, ctx.inputs),
                                decisions=eng.decision_string(),
@@ -454,6 +459,10 @@ def main(argv=None):
                     elif rr.get('error'):
                         conc['errors'] += 1
                         conc['failed_examples'].append(rr['error'][:200])
+                    elif rr.get('reproduced') and all(
+                            match_known(known, dict(prop=prop, harness=json.load(open(p))['harness'], goal=g,
+                                                    regions=[])) is not None for g in rr.get('failed_goals', [])):
+                        conc['held'] += 1          # only goals recorded as known findings (region 'all') fail
                     elif rr.get('reproduced'):
                         conc['failed'] += 1
                         conc['failed_examples'].append(str(rr.get('failed_goals'))[:200])
